@@ -12,6 +12,7 @@
      * float comparisons whose operands the model does not carry are answers of an oracle.
    Definitions only (proofs: Proofs/KernelsP.v). *)
 From Coq Require Import ZArith List Bool.
+From Verif Require Import Py PyExt PyValid S_validators.
 Import ListNotations.
 Open Scope Z_scope.
 
@@ -30,6 +31,9 @@ Notation "' p <~ m ;; k" := (kbind m (fun p => k))
   (at level 61, p pattern, m at next level, right associativity).
 
 Definition zlen {A} (l : list A) : Z := Z.of_nat (length l).
+
+(* truth of a loop test that was translated from the source (Gen/S_validators.v) *)
+Definition py_true (r : res pyv) : bool := match r with Ok v => truthy v | Raise _ => false end.
 
 (* a[i] with Numba's wrap-around of negative indices and NO further check in the source *)
 Definition rd {A} (l : list A) (i : Z) : kres A :=
@@ -68,7 +72,7 @@ Definition slice {A} (l : list A) (lo hi : Z) : list A :=
 
 (* ================================================================= _common._dot_coo_ndarray
      out = np.zeros(out_shape); didx1 = 0
-     while didx1 < len(data1):
+     while didx1 < len(data1) and out_shape[1] > 0:          <- GENERATED test sv_dcn_outer_test
          oidx1 = coords1[0, didx1]; didx1_curr = didx1
          for oidx2 in range(out_shape[1]):
              didx1 = didx1_curr
@@ -111,7 +115,7 @@ Section DotCooNdarray.
     match fuel with
     | O => OutOfFuel
     | S f =>
-      if didx1 <? zlen data then
+      if py_true (sv_dcn_outer_test (VInt didx1) (VInt (zlen data)) (VInt C)) then
         oidx1 <~ rd rows didx1 ;;
         '(d, out') <~ dcn_for (zrange C) oidx1 didx1 didx1 out ;;
         dcn_outer f d out'
@@ -123,7 +127,7 @@ End DotCooNdarray.
 
 (* ================================================================= _common._dot_coo_ndarray (sparse result)
      didx1 = 0
-     while didx1 < len(data1):
+     while didx1 < len(data1) and out_shape[1] > 0:          <- GENERATED test sv_dcs_outer_test
          current_row = coords1[0, didx1]; cur_didx1 = didx1; oidx2 = 0
          while oidx2 < out_shape[1]:
              cur_didx1 = didx1; data_curr = 0
@@ -169,7 +173,7 @@ Section DotCooNdarraySparse.
     match fuel with
     | O => OutOfFuel
     | S f =>
-      if didx1 <? zlen data then
+      if py_true (sv_dcs_outer_test (VInt didx1) (VInt (zlen data)) (VInt C)) then
         current_row <~ rd rows didx1 ;;
         '(cur, out') <~ dcs_mid F current_row didx1 didx1 0 out ;;
         dcs_outer f cur out'
